@@ -139,6 +139,12 @@ def run_groups(groups, pid, tier, jobs=8):
             except Exception as e:  # noqa
                 txt, rc = "runner error: %s" % e, 99
             wall = time.time() - t0
+            try:
+                os.makedirs(os.path.join(ROOT, "out"), exist_ok=True)
+                with open(os.path.join(ROOT, "out", "kani_%s_%s.log" % (gname, pid)), "w") as lf:
+                    lf.write(txt)
+            except OSError:
+                pass
             parsed = parse_output(txt, [h["name"] for h in hs])
             for h in hs:
                 r = parsed.get(h["name"])
